@@ -766,6 +766,7 @@ NeedsOK(fmt, rfmt, t) ==       \* what a layout / reader needs from the table
                             /\ IsFloatColumn(t, t_ratio) /\ NRows(t) >= 1)
     /\ fmt = "seg" => (IsFloatColumn(t, t_log2) /\ NRows(t) >= 1 /\ (HasCol(t, t_probes) => IsIntColumn(t, t_probes)))
     /\ rfmt = "cna" => (HasCol(t, t_gene) /\ IsFloatColumn(t, t_log2))
+    /\ fmt \in {"vcf", "vcf_sv"} => \A k \in 1..NRows(t) : StartOf(t, k) < EndOf(t, k)   \* a VCF record spans >= 1 base (END >= POS)
 Premise(r) ==
     /\ r.srcs # <<>> /\ \A m \in 1..Len(r.srcs) : TableOK(r.srcs[m][2]) /\ NeedsOK(r.fmt, r.rfmt, r.srcs[m][2])
     /\ r.op = "write" => r.fmt \in WriterNames
